@@ -42,6 +42,11 @@ def cases(tier, seed):
     for d in defs:
         nsym = len(d["state"]) + len(d["control"])
         yield {"def": d, "per_symbol": per if nsym <= 4 else 2, "seed": seed, "dts": [0.125, -0.25]}
+    # look-alike filters compiled one after the other in ONE process (both orders): no filter may depend on its predecessors
+    look = [with_sensors(d) for d in space.family_ops("thorough") if len(d["state"]) == 2]
+    look = [d for d in look if any(t in d["name"] for t in ("neg-", "pow", "div-by", "inv-", "recip", "mul-state", "sub-state", "add-state"))]
+    for order in ("fwd", "rev"):
+        yield {"kind": "sequence", "defs": look if tier == "thorough" else look[::2], "order": order, "seed": seed}
 
 
 def cmp_matrix(name, got, ref, shape, fails, d, env, cse):
@@ -59,7 +64,56 @@ def cmp_matrix(name, got, ref, shape, fails, d, env, cse):
     return True
 
 
+def eval_sequence(case):
+    defs = list(case["defs"])
+    if case["order"] == "rev":
+        defs.reverse()
+    fails, n, built = [], 0, []
+
+    def check(d, ekf, when, idx):
+        nonlocal n
+        ref = RefEKF(d)
+        for env in space.some_points(ref.st + ref.ct, 2, case["seed"], dts=(0.125, -0.25)):
+            full = ref.env(env)
+            try:
+                G, V = ref.G(full), ref.V(full)
+                Hs = {k: ref.H(k, full) for k in ref.h}
+            except Singular:
+                continue
+            try:
+                state = ekf.State(**{s_: env[s_] for s_ in ref.st})
+                control = ekf.Control(**{s_: env[s_] for s_ in ref.ct})
+                got = [("process_jacobian", ekf.process_jacobian(env["dt"], state, control), G),
+                       ("control_jacobian", ekf.control_jacobian(env["dt"], state, control), V)]
+                got += [("sensor_jacobian", ekf.sensor_jacobian(k, state), Hs[k]) for k in ref.h]
+            except Exception as e:
+                fails.append({"key": f"sequence-raises:{type(e).__name__}", "what": f"{d['name']} ({when}): {e!r}"[:300]})
+                return
+            n += len(got)
+            for name, g, r in got:
+                if any(not pyimpl.close(g[i, j], r[i][j], REL) for i in range(len(r)) for j in range(len(r[0]) if r else 0)):
+                    if not any(f["key"] == f"sequence-jacobian:{when}" for f in fails):
+                        fails.append({"key": f"sequence-jacobian:{when}", "what": f"{d['name']} compiled as #{idx} of a sequence ({case['order']}): "
+                                      f"{name} = {g.tolist()}, true partials {[[float(v) for v in row] for row in r]} at {env} [checked {when}]"})
+                    return
+
+    for d in defs:
+        try:
+            ekf = pyimpl.py_ekf(d)
+        except Exception as e:
+            fails.append({"key": f"compile-refused:{type(e).__name__}", "what": f"{d['name']}: {e!r}"[:300]})
+            continue
+        built.append((d, ekf))
+        check(d, ekf, "right after compiling", len(built))
+    for i, (d, ekf) in enumerate(built):
+        check(d, ekf, "after all were compiled", i + 1)
+    return {"n": n, "fails": fails[:3], "sig": f"sequence:{case['order']}", "outcomes": ["evaluated", "sequence"],
+            "sample": {"kind": "sequence", "order": case["order"], "filters_in_one_process": len(built)}}
+
+
 def eval_case(case):
+    if case.get("kind") == "sequence":
+        return eval_sequence(case)
     d = case["def"]
     ref = RefEKF(d)
     fails = []
@@ -115,4 +169,4 @@ def eval_case(case):
                        "jacobian_calls": n}}
 
 
-REQUIRED_OUTCOMES = ["evaluated"]
+REQUIRED_OUTCOMES = ["evaluated", "sequence"]
